@@ -7,13 +7,29 @@ open Twin
 def Env.synNode (e : Env) (n : ANode) (s : String) : M Doc :=
   if n.intoText == s then pure (e.syn s) else reject (.shape s!"{n.kind.name} node whose text is not {s}")
 
+/-- The stream a leaf's own text belongs to, for the leaves that are printed from their text. -/
+def leafTag : Kind → Option Pretty.Tag
+  | .text | .shorthand | .smartQuote => some .prose
+  | .escape | .link | .label => some .plit
+  | .ident | .bool | .int | .float | .numeric | .str | .mathIdent => some .lit
+  | .linebreak | .mathText | .mathAlignPoint | .mathShorthand | .underscore => some .tok
+  | _ => none
+
+/-- Verbatim emission of a disabled node: the whole source text (a leaf keeps its stream). -/
+def Env.verbNode (e : Env) (n : ANode) : Doc :=
+  match n, leafTag n.kind with
+  | .leaf _ t _, some tag => Twin.mkText e.wd tag t
+  | _, _ => e.verb n.intoText
+
 /-- `convert_expr_impl` (pretty/mod.rs:97). -/
 def convExprImpl (e : Env) (r : Rec) (ctx : Ctx) (n : ANode) : M Doc :=
   match n.kind with
-  | .text => pure (e.tok n.intoText)
+  | .text => pure (e.prose n.intoText)
   | .space => pure (if hasLinebreak n.text then hardline else space)
-  | .linebreak | .escape | .shorthand | .smartQuote | .link | .label | .ident | .bool | .int | .float | .numeric | .str
-  | .mathText | .mathIdent | .mathAlignPoint | .mathShorthand => pure (e.tok n.text)
+  | .shorthand | .smartQuote => pure (e.prose n.text)
+  | .escape | .link | .label => pure (e.plit n.text)
+  | .ident | .bool | .int | .float | .numeric | .str | .mathIdent => pure (e.lit n.text)
+  | .linebreak | .mathText | .mathAlignPoint | .mathShorthand => pure (e.tok n.text)
   | .parbreak => pure (repeatN hardline (countLinebreaks n.text))
   | .none_ => e.synNode n "none"
   | .auto_ => e.synNode n "auto"
@@ -28,7 +44,8 @@ def convExprImpl (e : Env) (r : Rec) (ctx : Ctx) (n : ANode) : M Doc :=
   | .equation => convEquation e r ctx n
   | .math => r.math ctx n
   | .mathDelimited => convMathDelimited e r ctx n
-  | .mathAttach | .mathRoot => convMathAttachLike e r ctx n
+  | .mathAttach => convMathAttach e r ctx n
+  | .mathRoot => convMathRoot e r ctx n
   | .mathPrimes => convMathPrimes e n
   | .mathFrac => convMathFrac e r ctx n
   | .codeBlock => convCodeBlock e r ctx n
@@ -52,12 +69,12 @@ def convExprImpl (e : Env) (r : Rec) (ctx : Ctx) (n : ANode) : M Doc :=
 /-- `convert_expr` (entry point). -/
 def convExpr (e : Env) (r : Rec) (ctx : Ctx) (n : ANode) : M Doc := do
   enter .expr n.attrs.id
-  if n.attrs.disabled then pure (e.verb n.intoText) else convExprImpl e r ctx n
+  if n.attrs.disabled then pure (e.verbNode n) else convExprImpl e r ctx n
 
 /-- `convert_pattern` (entry point). `rSelf` is the same level (pattern → expr forwards without descending). -/
 def convPattern (e : Env) (r : Rec) (exprSame : Ctx → ANode → M Doc) (parenSame : Ctx → ANode → M Doc) (ctx : Ctx) (n : ANode) : M Doc := do
   enter .pattern n.attrs.id
-  if n.attrs.disabled then pure (e.verb n.intoText) else
+  if n.attrs.disabled then pure (e.verbNode n) else
   match n.kind with
   | .underscore => e.synNode n "_"
   | .destructuring => convDestructuring e r ctx n
@@ -137,6 +154,58 @@ def specCmtsL : List ANode → String
   | c :: cs => specCmts c ++ specCmtsL cs
 end
 
+mutual
+/-- The prose text the source tree prescribes (C08): every character of the markup text,
+shorthand, smart-quote, escape, link and label leaves and of reference targets, in order (raw text
+is a literal, not prose; a verbatim node is emitted as it is and prescribes nothing here). -/
+def specProse : ANode → String
+  | .leaf k t _ =>
+    if k == .text || k == .shorthand || k == .smartQuote || k == .escape || k == .link || k == .label then t
+    else if k == .refMarker then String.ofList (t.toList.dropWhile (· == '@'))
+    else ""
+  | .inner k cs a => if isVerbatimNode k cs a || k == .raw then "" else specProseL cs
+def specProseL : List ANode → String
+  | [] => ""
+  | c :: cs => specProse c ++ specProseL cs
+end
+
+/-- The pieces of a raw element the printer rebuilds it from. -/
+def rawPieces : List ANode → String
+  | [] => ""
+  | c :: cs => (if c.kind == .rawDelim || c.kind == .rawLang || c.kind == .text then c.intoText else "") ++ rawPieces cs
+
+mutual
+/-- The literal text the source tree prescribes (C10): every character of the string, number,
+boolean, identifier, label, link, escape leaves and reference targets, and of raw elements (fence,
+language tag and text lines; the whole element when it is copied as it is), in order. -/
+def specLit : ANode → String
+  | .leaf k t _ =>
+    if k == .str || k == .int || k == .float || k == .numeric || k == .bool || k == .ident || k == .mathIdent
+       || k == .escape || k == .link || k == .label then t
+    else if k == .refMarker then String.ofList (t.toList.dropWhile (· == '@'))
+    else ""
+  | .inner k cs a =>
+    if isVerbatimNode k cs a then ""
+    else if k == .raw then (if rawIsVerbatim (.inner k cs a) then ANode.intoTextL cs else rawPieces cs)
+    else specLitL cs
+def specLitL : List ANode → String
+  | [] => ""
+  | c :: cs => specLit c ++ specLitL cs
+end
+
+mutual
+/-- The verbatim text the source tree prescribes (C07): the whole source text of every node that
+is emitted as it is because of `@typstyle off`, in order (a marked leaf that is printed from its own
+text anyway stays in its own stream). -/
+def specVerb : ANode → String
+  | .leaf k t a =>
+    if a.disabled && k.isExpr && (leafTag k).isNone && k != .space && k != .parbreak then t else ""
+  | .inner k cs a => if isVerbatimNode k cs a then ANode.intoTextL cs else specVerbL cs
+def specVerbL : List ANode → String
+  | [] => ""
+  | c :: cs => specVerb c ++ specVerbL cs
+end
+
 /-- Stages 2+3 of the pipeline for all indent units at once: attributes, then `convert_markup`
 of the root. Returns the document family and the number of entries into the four conversion entry
 points. -/
@@ -154,6 +223,18 @@ def tokensCertified (root : Node) (d : Twin.Doc) : Bool :=
 /-- Comment certificate of a printed family (C06). -/
 def commentsCertified (root : Node) (d : Twin.Doc) : Bool :=
   d.good && d.cmts == specCmts (prepare root)
+
+/-- Verbatim certificate of a printed family (C07). -/
+def verbatimCertified (root : Node) (d : Twin.Doc) : Bool :=
+  d.good && d.verbs == specVerb (prepare root)
+
+/-- Prose certificate of a printed family (C08). -/
+def proseCertified (root : Node) (d : Twin.Doc) : Bool :=
+  d.good && d.prose == specProse (prepare root)
+
+/-- Literal certificate of a printed family (C10).  (Not meaningful with import reordering on.) -/
+def literalsCertified (root : Node) (d : Twin.Doc) : Bool :=
+  d.good && d.lits == specLit (prepare root)
 
 /-- Stages 2+3 at a given configuration: the member of the family at `cfg.tab`. -/
 def printDoc (cfg : Config) (wd : String → Nat) (root : Node) : Except Reject (Pretty.Doc × Nat) :=
